@@ -35,7 +35,8 @@ def numRefWith (q : Nat → Bool) (hexOnly : Bool) : List Char → Bool
      | [] => false)
   | [] => false
 
-/-- **K-C03-2** (`trig.c03.ctlref`): a `;`-terminated numeric reference to U+0000 or U+000D.
+/-- **K-C03-2** (fixed in /repo: the reverse maps keep these references; kept as a classifier of regression inputs):
+    a `;`-terminated numeric reference to U+0000 or U+000D.
     The minifier writes the byte itself: a literal NUL (dropped or replaced by the parser, where `&#0;`
     denotes U+FFFD) resp. a literal CR (normalised to LF by the parser, where `&#13;` denotes a CR). -/
 def ctlRef (raw : List Char) : Bool :=
@@ -47,7 +48,7 @@ def refToLf (s : List Char) : Bool :=
   | some ([.lit ch], k) => ch = '\n' && (s.drop (k - 1)).head? = some ';'
   | _ => false
 
-/-- part of **K-C03-2** (`trig.c03.ctlref`): a literal CR immediately followed by a reference to LF.  The minifier
+/-- **K-C03-13** (`trig.c03.crlf`): a literal CR immediately followed by a reference to LF.  The minifier
     writes the LF itself, the parser's newline normalisation then merges CR LF into one LF.  (The decoded units of
     `Spec/HtmlAttr.lean` identify `&#10;` with a literal LF; this is the one place where the parser does not.) -/
 def crLfRef : List Char → Bool
@@ -80,6 +81,6 @@ def glueFrom : Bool → List Char → Bool
 def glue (raw : List Char) : Bool := glueFrom false raw
 
 /-- the guard of `entities_preserve_partial` -/
-def refsTrigger (raw : List Char) : Bool := glue raw || ctlRef raw || hexOverflow raw || crLfRef raw
+def refsTrigger (raw : List Char) : Bool := glue raw || hexOverflow raw || crLfRef raw
 
 end Verif.Spec.HtmlKnown
